@@ -25,6 +25,8 @@ func runC01(r *engine.Run) {
 	r.Rule("WHO-livedelete", "see C04: a node the rebuilt trie still references is never removed from the store (every path below it would become unreadable)")
 	r.Rule("DOM-lift", "liftOnlyChild (which replaces a branch by its only child and does not carry a value) is called only with a branch that provably holds no value: SetValue(nil) on that object dominates the call, or it is a clone of a branch whose HasValue() tested false on every path to the call")
 	r.Rule("AGREE-fields", "see C14: writer and reader of each node encoding agree on the separator discipline and field order (a node that decodes to something other than what was stored makes lookups on a persistent store return another value)")
+	r.Rule("ERR-guard", "see C17: in the trie operations the branch taken when a call failed returns a non-nil error, and no early return hands back an error on the edge where it is nil")
+	r.Rule("ERR-dropped", "see C17: the error of every trie / store operation called by the trie operations is looked at")
 	r.NotDec = append(r.NotDec, "that lookups return the last stored value for every history (path arithmetic, slicing, which child is lifted)", "hex validation of Insert/Delete paths (outside the property's quantifier)")
 	exhU(r)
 	domSize(r)
@@ -34,6 +36,7 @@ func runC01(r *engine.Run) {
 	whoLiveDelete(r, "WHO-livedelete")
 	domLift(r, "DOM-lift")
 	agreeFields(r)
+	errGuard(r, "ERR-guard", "ERR-dropped", mptFuncs(r), 30)
 }
 
 var nodeKinds = []string{"ExtensionNode", "FullNode", "LeafNode"}
